@@ -12,6 +12,7 @@ pub fn gen_case(fam: &str, r: &mut Rng, i: u64, p: &HashMap<String, String>) -> 
         "c04" => c04(r, i, p),
         "c12" => c12(r, i, p),
         "c11" => c11(r, i, p),
+        "c14" => c14(r, i, p),
         "c13" => c13(r, i, p),
         "c15" => c15(r, i, p),
         _ => vec![],
@@ -308,4 +309,28 @@ fn c15(r: &mut Rng, i: u64, p: &HashMap<String, String>) -> Vec<Value> {
     }
     vec![json!({"id": id("c15", i), "meta": {"opt": opt, "arg": arg},
                 "runs": [run(&html, w, cfg(deco, base), "string"), run(&html, w, cfg(deco, with), "string")]})]
+}
+
+fn strip_ids(n: &N) -> N {
+    match n {
+        N::E(nm, at, ks) => N::E(nm.clone(), at.iter().filter(|(a, _)| a != "id" && a != "name").cloned().collect(), ks.iter().map(strip_ids).collect()),
+        other => other.clone(),
+    }
+}
+/// C14: unique ids / anchor names on random elements; lines route, and string route with / without ids.
+fn c14(r: &mut Rng, i: u64, p: &HashMap<String, String>) -> Vec<Value> {
+    let mut f = if r.chance(1, 4) { Feat::all() } else { Feat::notables() };
+    f.ids = true;
+    let mut g = G::new(r, f);
+    let body = g.flow(0);
+    if g.ids.is_empty() { return vec![]; }
+    let html = doc_html(&body);
+    let stripped: Vec<N> = body.iter().map(strip_ids).collect();
+    let html0 = doc_html(&stripped);
+    let w = if r.chance(1, 2) { r.range(1, 12) } else { r.range(1, wmax(p, 100)) };
+    let sdeco = *r.pick(&["plain", "plain_nd", "trivial"]);
+    vec![json!({"id": id("c14", i), "runs": [
+        run(&html, w, cfg("rich", vec![]), "lines"),
+        run(&html, w, cfg(sdeco, vec![]), "string"),
+        run(&html0, w, cfg(sdeco, vec![]), "string")]})]
 }
